@@ -83,7 +83,7 @@ structure St where
   stk : Tid → List Frame
   act : List Tid               -- threads whose stack is not empty
   dead : Option Tid            -- the thread that runs / ran the container's destructor
-  vdead : Bool                 -- the vector member is being / has been destroyed
+  vdead : Bool                 -- the vector member has been destroyed (the destructor's work is done)
   created : List ObjId         -- ghost: objects ever created
   pend : List ObjId            -- ghost: objects whose last reference is gone and whose destructor has not started
   destroyed : List ObjId       -- ghost: log of destructor starts (`pdt`)
@@ -126,7 +126,7 @@ def St.mayCall (s : St) (t : Tid) : Bool := userLevel (s.stk t) && !s.vdead && s
 /-- the vector member's destructor: release the remaining elements front to back; stops at the first object whose
 last reference this is (its destructor runs next) -/
 def vdrain (s : St) (t : Tid) (rest : List Frame) : List ObjId → St
-  | [] => { s with vec := [] }.setStk t (.xRet :: rest)
+  | [] => { s with vec := [], vdead := true }.setStk t (.xRet :: rest)
   | k :: v =>
       let s1 := { s with vec := v, vrel := k :: s.vrel }
       if refs s1 k = 0 then { s1 with pend := k :: s1.pend }.setStk t (.dying k :: .xVec :: rest)
@@ -150,7 +150,7 @@ def dDone (s : St) (t : Tid) (r : Option Nat) (rest : List Frame) : St :=
   match rest with
   | .gInner dc cnt es :: rest' => s.setStk t (.gRelockD dc cnt es :: rest')
   | .xInner ii :: rest' => xAfter s t ii rest'
-  | .xInnerLast :: rest' => vdrain { s with vdead := true } t rest' s.vec
+  | .xInnerLast :: rest' => vdrain s t rest' s.vec
   | _ => s.setStk t (.dRet r :: rest)
 
 /-- `ecall.clear()` / unwinding of `ecall`: release this call's remaining entries front to back; stops at the first
